@@ -10,6 +10,8 @@ import (
 	"flag"
 	"fmt"
 	"net"
+	"os"
+	"path/filepath"
 	"sync"
 	"time"
 
@@ -399,6 +401,66 @@ func exporterHistory(peerMax int, untrustedFirst bool) []attempt {
 	return out
 }
 
+func sharedConfigHistory() []attempt {
+	cert, err := tls.X509KeyPair(srv["trusted"].CertPEM, srv["trusted"].KeyPEM)
+	if err != nil {
+		panic(err)
+	}
+	serve := func(ip string) net.Listener {
+		ln, err := tls.Listen("tcp", ip+":0", &tls.Config{Certificates: []tls.Certificate{cert}, MinVersion: tls.VersionTLS12})
+		if err != nil {
+			return nil
+		}
+		go func() {
+			for {
+				conn, err := ln.Accept()
+				if err != nil {
+					return
+				}
+				go func() {
+					defer conn.Close()
+					buf := make([]byte, 4096)
+					conn.SetReadDeadline(time.Now().Add(3 * time.Second))
+					for {
+						if _, err := conn.Read(buf); err != nil {
+							return
+						}
+					}
+				}()
+			}
+		}()
+		return ln
+	}
+	la, lb := serve("127.0.0.1"), serve("127.0.0.2")
+	if la == nil || lb == nil { // no second loopback address on this machine: nothing to report
+		return nil
+	}
+	defer la.Close()
+	defer lb.Close()
+	shared := &exporter.ExporterTLSClientConfig{CAData: caA.CertPEM} // ServerName unset, one value for both
+	var out []attempt
+	for _, st := range []struct {
+		ln   net.Listener
+		addr string
+	}{{la, "ip"}, {lb, "ip2"}, {la, "ip"}, {lb, "ip2"}} {
+		c := cell{Side: "exporter", Proto: "tls", SrvCert: "trusted", SrvName: "unset", CliCert: "none", PeerMax: 13, Cfg: "ok", Addr: st.addr, SrvChain: "A"}
+		stamp(&c)
+		o := obs{}
+		ep, err := exporter.InitExportingProcess(exporter.ExporterInput{CollectorAddress: st.ln.Addr().String(), CollectorProtocol: "tcp", ObservationDomainID: 1, TLSClientConfig: shared})
+		if err == nil {
+			o.Established, o.Version = true, 13
+			if _, serr := ep.SendSet(templateSet()); serr == nil {
+				o.Sent = true
+			}
+			ep.CloseConnToCollector()
+		} else {
+			o.Detail = err.Error()
+		}
+		out = append(out, attempt{c, o})
+	}
+	return out
+}
+
 // --------------------------------------------------------------- collector side (real collector)
 
 func collectorCell(c cell) obs {
@@ -499,6 +561,14 @@ func main() {
 	flag.Parse()
 	registry.LoadRegistry()
 	mint()
+	// the HOST's trust store holds CA B (and nothing else): what the machine trusts is not what the exporter was configured with
+	hostCA := filepath.Join(os.TempDir(), fmt.Sprintf("verif-hostca-%d.pem", os.Getpid()))
+	if err := os.WriteFile(hostCA, caB.CertPEM, 0o600); err != nil {
+		panic(err)
+	}
+	defer os.Remove(hostCA)
+	os.Setenv("SSL_CERT_FILE", hostCA)
+	os.Setenv("SSL_CERT_DIR", filepath.Join(os.TempDir(), "verif-no-such-dir"))
 	w, err := vt.Open(*out)
 	if err != nil {
 		panic(err)
@@ -610,6 +680,12 @@ func main() {
 			w.Emit(vt.Ev{"e": "Cell", "srv": srvID, "cell": a.c, "obs": a.o})
 			nh++
 		}
+	}
+	// one configuration value reused for two collectors at two addresses (ServerName unset): the second one presents
+	// a trusted certificate that is valid for the first address only
+	for k, a := range sharedConfigHistory() {
+		w.Emit(vt.Ev{"e": "Cell", "srv": 10 + k, "cell": a.c, "obs": a.o})
+		nh++
 	}
 	w.Close()
 	vt.PrintSummary(vt.Summary{Events: w.Events(), Traces: 1, Evaluations: len(cells) + nh, Distinct: len(cells) + nh})
